@@ -1013,6 +1013,18 @@ static int vnadata_save_common(vnadata_t *vdp, FILE *fp, const char *filename,
 		    _vnadata_format_to_name(vfdp));
 	    goto out;
 	}
+	if (fptype != type && (fptype == VPT_T || fptype == VPT_U ||
+		    fptype == VPT_H || fptype == VPT_G ||
+		    fptype == VPT_A || fptype == VPT_B) &&
+		(vnadata_get_rows(vdp) != 2 ||
+		 vnadata_get_columns(vdp) != 2)) {
+	    _vnadata_error(vdip, VNAERR_USAGE, "%s: cannot convert "
+		    "%d x %d %s parameters for format %s: must be 2x2",
+		    function, vnadata_get_rows(vdp),
+		    vnadata_get_columns(vdp), vnadata_get_type_name(type),
+		    _vnadata_format_to_name(vfdp));
+	    goto out;
+	}
     }
 
     /*
